@@ -155,6 +155,9 @@ class GroupInfo:
             if key == "fromM":
                 M = SX.sym("M", *self.mshape)
                 return [M], [ca.densify(G.from_Matrix(M).param)]
+            if key == "alg_fromM":
+                M = SX.sym("M", *alg.matrix_shape)
+                return [M], [ca.densify(alg.from_Matrix(M).param)]
             if key in ("Jl", "Jr", "Jl_inv", "Jr_inv"):
                 x = self._x()
                 e = alg.elem(x)
